@@ -54,9 +54,20 @@ impl Prop for PDelete {
         materialize(&dir_b, &tree);
         let mut b = base.clone();
         b.extend(pre);
+        // "alt": what could not be removed is printed by another action of the same expression (-delete is false there);
+        // the failure still decides find's exit status
+        let alt = input.get("alt").and_then(|a| a.as_bool()).unwrap_or(false);
+        let side = dir_b.parent().unwrap().join("notdeleted.nul");
+        let _ = std::fs::remove_file(&side);
+        if alt {
+            b.push("(".into());
+        }
         b.push("-delete".into());
         b.push("-printf".into());
         b.push("%p\\0".into());
+        if alt {
+            b.extend(["-o".to_string(), "-fprint0".to_string(), side.to_string_lossy().into_owned(), ")".to_string()]);
+        }
         let errf = dir_b.parent().unwrap().join("stderr.txt");
         let rb = run_find_inproc(&dir_b, &b, None, &errf);
         if rb.panicked {
@@ -65,9 +76,14 @@ impl Prop for PDelete {
         let left: Vec<bool> = (1..=tree.len()).map(|i| dir_b.join(node_path(&tree, i)).symlink_metadata().is_ok()).collect();
         // nothing but the tree's own nodes may exist or have appeared
         let extra = count_entries(&dir_b) as i64 - left.iter().filter(|x| **x).count() as i64;
-        json!({"matched": split_nul(&ra.out).iter().map(|p| bytes_to_json(&unlossy(p, &tree))).collect::<Vec<_>>(),
+        let notdel = if alt { Some(std::fs::read(&side).unwrap_or_default()) } else { None };
+        let mut o = json!({"matched": split_nul(&ra.out).iter().map(|p| bytes_to_json(&unlossy(p, &tree))).collect::<Vec<_>>(),
                "deleted": split_nul(&rb.out).iter().map(|p| bytes_to_json(&unlossy(p, &tree))).collect::<Vec<_>>(),
-               "left": left, "exit": rb.exit, "diag": !rb.stderr.is_empty(), "extra": extra, "exit_twin": ra.exit})
+               "left": left, "exit": rb.exit, "diag": !rb.stderr.is_empty(), "extra": extra, "exit_twin": ra.exit});
+        if let Some(nd) = notdel {
+            o["notdel"] = json!(split_nul(&nd).iter().map(|p| bytes_to_json(&unlossy(p, &tree))).collect::<Vec<_>>());
+        }
+        o
     }
 
     fn gen(&mut self, rng: &mut Rng, idx: usize, tier: &str) -> Value {
@@ -106,6 +122,7 @@ impl Prop for PDelete {
         if v["pre"]["p"] != "none" && rng.chance(1, 3) {
             v["pre"]["neg"] = json!(true);
         }
+        v["alt"] = json!(rng.chance(1, 2));
         // names that are not valid UTF-8 are removed like any other (the test before -delete then looks at types only)
         if rng.chance(1, 4) && add_raw_names(&mut v, rng) && v["pre"]["p"] == "name" {
             v["pre"] = json!({"p": "none"});
